@@ -136,6 +136,7 @@ Definition is_option_ty (t : rty) : bool := match t with ROption _ => true | _ =
 Definition named_de (args : list rty) (rename_all : option rule) (fs : list field) (es : list (str * json)) : dres :=
   dseq (map (fun f =>
                if f_skip f then DOk VUnit
+               else if f_flatten f then dt (rsubst args (f_serde_ty f)) (JObj es)   (* a flattened struct reads its fields from the same entries (unknown keys are ignored) *)
                else match assoc (Serde.field_key rename_all f) es with
                     | Some x => dt (rsubst args (f_serde_ty f)) x
                     | None => if is_option_ty (rsubst args (f_serde_ty f)) then DOk VNone else DReject
